@@ -7,6 +7,7 @@ import (
 	"os"
 	"os/exec"
 	"path/filepath"
+	"strconv"
 	"strings"
 	"sync"
 	"time"
@@ -258,6 +259,9 @@ func (e *Engine) solveOne(common, base string, o *Oblig, cfg solveCfg) {
 			t := cfg.timeoutSec
 			if t < 60 {
 				t = 60
+			}
+			if v, err := strconv.Atoi(os.Getenv("VERIF_PORTFOLIO_SEC")); err == nil && v > 0 {
+				t = v // development only (mutation campaign): never set by the registered commands
 			}
 			out, secs := runSolverCtx(race, s, file, t)
 			as, _ := parseAnswers(out)
